@@ -1,6 +1,9 @@
 //! C33 — replay of `ArcStr` schedules on real heap-backed `aranya_policy_text::Text` values.
 //!
-//! Behaviour: `{"threads":N,"steps":[{"a":label,"t":tid,"count":c,"freed":f,"pc":[..],"held":[..]},..]}`.
+//! Behaviour: `{"threads":N,"owners":[..],"steps":[{"a":label,"t":tid,"count":c,"freed":f,"pc":[..],
+//! "held":[..],"bor":[..]},..]}`.  Owner threads start with one handle; the other threads start
+//! with a shared reference to the first owner's handle (clone/read through `&Text`, so several
+//! threads can clone the same handle — also a unique one — at once) until they give it back.
 //! Spec label ↔ yield point: `op` harness (the thread picks clone/read/drop; the choice is read
 //! off the spec's next pc), `inc` ARC_FETCH_ADD, `rd` harness read of `as_str()`, `dec`
 //! ARC_FETCH_SUB, `fence` ARC_FENCE, `free` ARC_DEALLOC.
@@ -36,7 +39,16 @@ enum Op {
     Clone,
     Read,
     Drop,
+    /// give the shared reference to the lender's handle back
+    EndBorrow,
 }
+
+/// The lender's first handle, at a stable address so that other threads can hold `&Text` to it.
+struct LentCell(std::cell::UnsafeCell<Option<Text>>);
+// SAFETY: all test threads are coroutines of one OS thread; the scheduler serialises them.
+unsafe impl Send for LentCell {}
+// SAFETY: as above.
+unsafe impl Sync for LentCell {}
 
 fn label_site(l: &str) -> Option<u32> {
     Some(match l {
@@ -61,6 +73,8 @@ fn matches_pc(st: &Status, pc: &str) -> bool {
 struct Shared {
     mailbox: Vec<Option<Op>>,
     held: Vec<usize>,
+    borrowing: Vec<bool>,
+    lender: usize,
     clones: Vec<u64>,
     reads: Vec<u64>,
     bad_read: Option<String>,
@@ -71,6 +85,25 @@ struct Ctl {
     max_clones: u64,
     max_reads: u64,
     rng: vrt::Rng,
+}
+
+fn allowed(sh: &Shared, tid: usize, max_clones: u64, max_reads: u64) -> Vec<Op> {
+    let mut ops = Vec::new();
+    let has = sh.held[tid] > 0 || sh.borrowing[tid];
+    let lent = sh.borrowing.iter().any(|b| *b);
+    if sh.held[tid] > 0 && !(tid == sh.lender && sh.held[tid] == 1 && lent) {
+        ops.push(Op::Drop);
+    }
+    if has && sh.clones[tid] < max_clones {
+        ops.push(Op::Clone);
+    }
+    if has && sh.reads[tid] < max_reads {
+        ops.push(Op::Read);
+    }
+    if sh.borrowing[tid] {
+        ops.push(Op::EndBorrow);
+    }
+    ops
 }
 
 impl Ctl {
@@ -100,11 +133,21 @@ impl Control for Ctl {
             let op = match s.a("pc")[t].as_str() {
                 Some("inc") => Op::Clone,
                 Some("rd") => Op::Read,
-                _ => Op::Drop,
+                Some("dec") => Op::Drop,
+                _ => Op::EndBorrow,
             };
             self.sh.lock().unwrap().mailbox[t] = Some(op);
         }
         false
+    }
+    fn enabled(&self, tid: usize, st: &Status, _sched: &Sched) -> bool {
+        match st {
+            Status::Parked { site, .. } if *site == hsite::OP => {
+                let sh = self.sh.lock().unwrap();
+                sh.mailbox[tid].is_some() || !allowed(&sh, tid, self.max_clones, self.max_reads).is_empty()
+            }
+            _ => true,
+        }
     }
     fn on_release(&mut self, tid: usize, st: &Status) -> Option<Fail> {
         if let Status::Parked { site: s, a, .. } = st {
@@ -112,14 +155,9 @@ impl Control for Ctl {
                 // free run: seeded choice among the operations the bounds allow
                 let mut sh = self.sh.lock().unwrap();
                 if sh.mailbox[tid].is_none() {
-                    let mut ops = vec![Op::Drop];
-                    if sh.clones[tid] < self.max_clones {
-                        ops.push(Op::Clone);
-                    }
-                    if sh.reads[tid] < self.max_reads {
-                        ops.push(Op::Read);
-                    }
-                    sh.mailbox[tid] = Some(*self.rng.pick(&ops));
+                    let ops = allowed(&sh, tid, self.max_clones, self.max_reads);
+                    let op = if ops.is_empty() { Op::EndBorrow } else { *self.rng.pick(&ops) };
+                    sh.mailbox[tid] = Some(op);
                 }
             } else if *s == site::ARC_FETCH_SUB {
                 // the handle is gone as soon as the count is decremented
@@ -147,6 +185,13 @@ impl Control for Ctl {
         for (i, h) in s.a("held").iter().enumerate() {
             if h.as_u64() != Some(sh.held[i] as u64) {
                 return Some(format!("thread {} holds {} handles, spec {}", i + 1, sh.held[i], h));
+            }
+        }
+        if let Some(b) = s.get("bor").and_then(Value::as_array) {
+            for (i, v) in b.iter().enumerate() {
+                if v.as_bool() != Some(sh.borrowing[i]) {
+                    return Some(format!("thread {} borrowing={} but spec has {}", i + 1, sh.borrowing[i], v));
+                }
             }
         }
         let r = alloc::report();
@@ -195,13 +240,21 @@ fn replay(b: &Value, mut rng: vrt::Rng, selftest: &str) -> (Outcome, alloc::Repo
     alloc::reset();
     let sched = Sched::new();
     sched.set_visible(VISIBLE);
-    // one heap allocation, one handle per thread (made here, outside the schedule)
+    // one heap allocation; one handle per owner thread (made here, outside the schedule); the
+    // first owner's handle lives in a cell the borrower threads hold a shared reference to
+    let owners: Vec<usize> = match b.get("owners").and_then(Value::as_array) {
+        Some(a) => a.iter().filter_map(Value::as_u64).map(|x| x as usize - 1).collect(),
+        None => (0..n).collect(),
+    };
+    let lender = owners.iter().copied().min().unwrap_or(0);
     let first: Text = alloc::track(|| CONTENT.parse().expect("valid text"));
-    let mut handles: Vec<Text> = (1..n).map(|_| first.clone()).collect();
-    handles.push(first);
+    let mut own: Vec<Option<Text>> = (0..n).map(|i| if owners.contains(&i) && i != lender { Some(first.clone()) } else { None }).collect();
+    let lent = Arc::new(LentCell(std::cell::UnsafeCell::new(Some(first))));
     let sh = Arc::new(Mutex::new(Shared {
         mailbox: vec![None; n],
-        held: vec![1; n],
+        held: (0..n).map(|i| usize::from(owners.contains(&i))).collect(),
+        borrowing: (0..n).map(|i| !owners.contains(&i)).collect(),
+        lender,
         clones: vec![0; n],
         reads: vec![0; n],
         bad_read: None,
@@ -210,23 +263,41 @@ fn replay(b: &Value, mut rng: vrt::Rng, selftest: &str) -> (Outcome, alloc::Repo
     // self-test "extradrop": thread 1 drops one handle twice — a double free / UAF must be reported
     let forget = selftest == "forget";
     let extradrop = selftest == "extradrop";
-    for (tid, h) in handles.into_iter().enumerate() {
+    for tid in 0..n {
         let sh = Arc::clone(&sh);
+        let lent = Arc::clone(&lent);
+        let mut mine: Vec<Text> = own[tid].take().into_iter().collect();
         sched.spawn(move || {
-            let mut mine = vec![h];
-            while !mine.is_empty() {
+            // the handle a clone/read goes through: the borrowed one while borrowing (also for the
+            // lender itself when it has no other), else the newest own handle
+            loop {
+                {
+                    let g = sh.lock().unwrap();
+                    if g.held[tid] == 0 && !g.borrowing[tid] {
+                        break;
+                    }
+                }
                 vsched::point(hsite::OP, tid, 0);
-                let op = sh.lock().unwrap().mailbox[tid].take().unwrap_or(Op::Drop);
+                let op = sh.lock().unwrap().mailbox[tid].take().unwrap_or(Op::EndBorrow);
+                let via_lent = mine.is_empty();
+                // SAFETY: the cell holds the lender's handle as long as the lender owns it or somebody
+                // borrows it (the lender cannot drop it while it is lent); single OS thread.
+                let lent_ref = || unsafe { (*lent.0.get()).as_ref() };
                 match op {
+                    Op::EndBorrow => {
+                        sh.lock().unwrap().borrowing[tid] = false;
+                    }
                     Op::Clone => {
-                        let c = mine[mine.len() - 1].clone();
+                        let c = if via_lent { lent_ref().map(Text::clone) } else { Some(mine[mine.len() - 1].clone()) };
+                        let Some(c) = c else { break };
                         mine.push(c);
                         let mut g = sh.lock().unwrap();
                         g.held[tid] += 1;
                         g.clones[tid] += 1;
                     }
                     Op::Read => {
-                        let t = &mine[mine.len() - 1];
+                        let t = if via_lent { lent_ref() } else { Some(&mine[mine.len() - 1]) };
+                        let Some(t) = t else { break };
                         vsched::point(hsite::READ, t.as_str().as_ptr() as usize, 0);
                         let ok = t.as_str().as_bytes() == CONTENT.as_bytes();
                         let mut g = sh.lock().unwrap();
@@ -237,7 +308,15 @@ fn replay(b: &Value, mut rng: vrt::Rng, selftest: &str) -> (Outcome, alloc::Repo
                         }
                     }
                     Op::Drop => {
-                        let t = mine.pop().expect("non-empty");
+                        // the lender's own first handle sits in the cell and goes last
+                        let t = match mine.pop() {
+                            Some(t) => t,
+                            // SAFETY: as above; nobody borrows it any more (spec guard / controller)
+                            None => match unsafe { (*lent.0.get()).take() } {
+                                Some(t) => t,
+                                None => break,
+                            },
+                        };
                         // (the controller counts the handle as gone when it releases the fetch_sub)
                         if forget && tid == 0 {
                             std::mem::forget(t);
@@ -257,6 +336,12 @@ fn replay(b: &Value, mut rng: vrt::Rng, selftest: &str) -> (Outcome, alloc::Repo
     let mut ctl = Ctl { sh, max_clones, max_reads, rng: rng.clone() };
     let o = driver::run(&sched, b.a("steps"), &mut ctl, &mut rng, 10_000);
     drop(sched);
+    // a handle left in the cell (the run ended early) must not be dropped after the allocator
+    // has handed the tracked block back: it is part of the leak verdict, forget it
+    // SAFETY: no test thread runs any more.
+    if let Some(t) = unsafe { (*lent.0.get()).take() } {
+        std::mem::forget(t);
+    }
     let rep = alloc::reset();
     (o, rep)
 }
